@@ -990,11 +990,14 @@ func (s *session) startReadAndHandle() {
 		}
 		verifGate("read.beforeGo", s)
 		s.graceCtxWaitGroup.Add(1)
-		if !Go(func() {
+		handle := func() {
 			defer s.peer.putContext(ctx, true)
 			ctx.handle()
-		}) {
-			s.peer.putContext(ctx, true)
+		}
+		if !Go(handle) {
+			// the goroutine pool has no room: the message is handled by the reading goroutine
+			// rather than dropped (a dropped CALL is never answered, a dropped REPLY never completes its call)
+			handle()
 		}
 	}
 }
